@@ -1075,7 +1075,13 @@ func genJBuf(r *Rng, tier string, idx int) Case {
 	return Case{Class: cl, Ops: ops}
 }
 
-var c18IntClasses = []string{"stream", "reorder", "sizes", "short", "uerr", "smallbuf", "rebind", "dup"}
+// `recycle`: Clear is not a terminal operation.  The interceptor's Close and UnbindRemoteStream are both "Clear" for
+// the property; the cycle [traffic until the buffer is emitting with packets still buffered; Close or Unbind] is
+// repeated two to four times on ONE interceptor object (Close, re-use, Close again, re-use again; Unbind and Close
+// mixed; now and then two in a row, or a cycle too short to start playback).  After EVERY one of them nothing
+// buffered earlier may be returned and the next stream buffers its own 50 packets — the streams of a case use
+// overlapping, adjacent or distant sequence ranges, so a left-over packet would fit into the next stream.
+var c18IntClasses = []string{"stream", "reorder", "sizes", "short", "uerr", "smallbuf", "rebind", "dup", "recycle"}
 
 func genJBufInt(r *Rng, tier string, idx int) Case {
 	if idx < c18NFull("jbufint", tier) {
@@ -1130,6 +1136,34 @@ func genJBufInt(r *Rng, tier string, idx int) Case {
 	}
 	for _, x := range xs {
 		read(x)
+	}
+	if cl == "recycle" {
+		cycles := r.Range(2, 4)
+		kinds := []string{"close", "close", "unbind"}
+		mode := r.Intn(4) // 0: Close every time, 1: Unbind every time, 2/3: mixed
+		b := base
+		for c := 0; c < cycles; c++ {
+			end := kinds[r.Intn(len(kinds))]
+			switch mode {
+			case 0:
+				end = "close"
+			case 1:
+				end = "unbind"
+			}
+			ops = append(ops, end)
+			if r.Chance(1, 6) {
+				ops = append(ops, kinds[r.Intn(len(kinds))]) // two in a row, nothing in between
+			}
+			// the next stream: the same numbers again, the numbers that follow, numbers just below, or far away
+			b = (b + r.Pick(0, 0, k, k-r.Range(1, 49), 65536-r.Range(1, 60), 5000, 40000)) & 0xFFFF
+			k = 50 + r.Range(1, 25)
+			if c+1 < cycles && r.Chance(1, 8) {
+				k = r.Range(1, 49) // this one never starts playback
+			}
+			for _, x := range c18Arrivals(r, b, k, r.Pick2("inorder", r.Pick2("inorder", "swap"))) {
+				read(x)
+			}
+		}
 	}
 	if cl == "rebind" {
 		ops = append(ops, r.Pick2("unbind", "close"))
